@@ -521,10 +521,17 @@ pub fn preprocess_str<T: AsRef<Path>, U: AsRef<Path>, V: BuildHasher>(
                     ret.push(locate.str(&s), Some((path.as_ref(), range)));
                 }
             }
-            NodeEvent::Enter(RefNode::Comment(x)) if !strip_comments => {
+            NodeEvent::Enter(RefNode::Comment(x)) => {
                 let locate: Locate = x.try_into().unwrap();
                 let range = Range::new(locate.offset, locate.offset + locate.len);
-                ret.push(locate.str(&s), Some((path.as_ref(), range)));
+                if !strip_comments {
+                    ret.push(locate.str(&s), Some((path.as_ref(), range)));
+                } else if locate.str(&s).ends_with('\n') {
+                    // A stripped comment still separates the tokens around it.
+                    ret.push("\n", Some((path.as_ref(), range)));
+                } else {
+                    ret.push(" ", Some((path.as_ref(), range)));
+                }
             }
             NodeEvent::Enter(RefNode::IfndefDirective(x)) => {
                 let (_, ref keyword, ref ifid, ref ifbody, ref elsif, ref elsebody, _, _) = x.nodes;
